@@ -254,6 +254,16 @@ CHECKS = {
         "Trusted: each backend is its own baseline; null placement among order keys is not judged.",
         "4/C18",
     ),
+    "C21": (
+        "reference-model runtime monitor: helper pipelines on Pandas and SQLite vs from-scratch references",
+        "rank_to_average, last_observed_carried_forward, replicate_rows_query and def_multi_column_map are built by the "
+        "real functions on random valid inputs (ties, several partition columns, leading/trailing/all-missing runs and a "
+        "second nullable column that must stay untouched, counts at 1 / powers of two / max_count for max_count 1..9, "
+        "unmapped and null values, coalesce value, renaming) and evaluated on the Pandas executor and as SQL on SQLite; "
+        "both results must equal an independent reference computation written from the documentation.",
+        "Trusted: the four reference computations (about 15 lines each).",
+        "4/C21",
+    ),
 }
 
 NOT_BUILT = "check not built yet (build in progress, see DESIGN.md section 8)"
